@@ -144,3 +144,16 @@ func vfHNSWStored(idx *HNSWIndex, id uint32) []float32 {
 	}
 	return nil
 }
+
+// ---- flat ----
+
+func vfFlatStored(idx *FlatIndex, id uint32) []float32 {
+	idx.mu.RLock()
+	defer idx.mu.RUnlock()
+	for _, v := range idx.vectors {
+		if v.ID() == id {
+			return vfCloneF32(v.Vector())
+		}
+	}
+	return nil
+}
